@@ -282,6 +282,7 @@ pdgstrf_MemInit(int_t n, int_t annz, superlumt_options_t *superlumt_options,
 
     if ( !dexpanders )
       dexpanders = (ExpHeader *) SUPERLU_MALLOC(NO_MEMTYPE * sizeof(ExpHeader));
+    if ( !dexpanders ) SUPERLU_ABORT("SUPERLU_MALLOC fails for expanders[].");
 
     if ( refact == NO ) {
 
